@@ -544,3 +544,86 @@ Definition metas_out (l : ledger) (keys : list str) : out :=
       OL (map (fun d => OL (map (fun k => o_cell (f_commodity_meta l (d_currency d) k)) keys)) (commodities_iter l))].
 
 Definition run_out (l : ledger) (keys : list str) : out := OL [tables_out l; metas_out l keys].
+
+(* ORDER BY a column that is not selected, on a typed table (both of type str):
+   the rows stably sorted by [key], projected on [proj] *)
+Definition cell_str (c : cell) : str := match c with CStr s => s | _ => [] end.
+Definition order_proj (rows : list directive) (key proj : directive -> cell) : list cell :=
+  map proj (isort (fun a b => list_le (cell_str (key a)) (cell_str (key b))) rows).
+Definition orders_out (l : ledger) : out :=
+  OL [OL (map o_cell (order_proj (typed_iter KNote l) tcol_comment tcol_account));
+      OL (map o_cell (order_proj (typed_iter KNote l) tcol_account tcol_comment));
+      OL (map o_cell (order_proj (typed_iter KEvent l) tcol_description tcol_type));
+      OL (map o_cell (order_proj (typed_iter KDocument l) tcol_filename tcol_account));
+      OL (map o_cell (order_proj (typed_iter KBalance l) tcol_account tcol_date))].
+
+Definition run_all_out (l : ledger) (keys : list str) : out := OL [tables_out l; metas_out l keys; orders_out l].
+
+(* ---------- compact output: one 48-bit hash per column ---------- *)
+(* The correspondence run compares, per (table, column), a hash of the whole column
+   (computed the same way over the implementation's cells); a column holding a Python
+   exception is reported as such; a differing hash is then re-examined cell by cell
+   with [run_all_out].  balance is always sent in full (it is summed into an
+   Inventory on the harness side). *)
+Definition MASK := 281474976710655.   (* 2^48 - 1 *)
+Definition mix (acc t : Z) : Z := Z.land (Z.shiftl acc 5 + acc + t) MASK.
+Fixpoint hash_out (o : out) (acc : Z) : Z :=
+  match o with
+  | ON z => mix acc (z + z)
+  | OL l => mix ((fix go (l : list out) (a : Z) : Z :=
+                    match l with [] => a | x :: t => go t (hash_out x a) end) l (mix acc 2000007)) 2000067
+  end.
+
+Fixpoint first_err (cs : list cell) : option Z :=
+  match cs with [] => None | CErr k :: _ => Some k | _ :: t => first_err t end.
+Definition col_summary (cs : list cell) : out :=
+  match first_err cs with
+  | Some k => OL [ON 1; ON k]
+  | None => OL [ON 0; ON (hash_out (OL (map o_cell cs)) 0)]
+  end.
+Definition col_full (cs : list cell) : out :=
+  match first_err cs with
+  | Some k => OL [ON 1; ON k]
+  | None => OL [ON 2; OL (map o_cell cs)]
+  end.
+
+Definition table_hashed {R} (rows : list R) (cols : list (column R)) : out :=
+  OL (map (fun c => if String.eqb (fst (fst c)) "balance" then col_full (map (snd c) rows)
+                    else col_summary (map (snd c) rows)) cols).
+
+Definition tables_hashed (l : ledger) : out :=
+  OL [table_hashed (entries_iter l) entries_columns; table_hashed (postings_iter l) postings_columns;
+      table_hashed (typed_iter KTransaction l) transactions_columns; table_hashed (typed_iter KPrice l) prices_columns;
+      table_hashed (typed_iter KBalance l) balances_columns; table_hashed (typed_iter KNote l) notes_columns;
+      table_hashed (typed_iter KEvent l) events_columns; table_hashed (typed_iter KDocument l) documents_columns;
+      table_hashed (accounts_iter l) accounts_columns; table_hashed (commodities_iter l) commodities_columns].
+
+(* the same targets as [metas_out], as functions of the row, one summary per target *)
+Definition pmeta_targets (l : ledger) (keys : list str) : list (prow -> cell) :=
+  flat_map (fun k => [(fun r => f_meta r k); (fun r => f_entry_meta r k); (fun r => f_any_meta r k);
+                      (fun r => f_open_meta l (p_account (pr_posting r)) k);
+                      (fun r => f_commodity_meta l (a_cur (p_units (pr_posting r))) k)]) keys
+  ++ [(fun r => f_open_date l (p_account (pr_posting r))); (fun r => f_close_date l (p_account (pr_posting r)));
+      (fun r => f_open_meta1 l (p_account (pr_posting r))); (fun r => f_commodity_meta1 l (a_cur (p_units (pr_posting r))))].
+
+Definition targets_hashed {R} (rows : list R) (ts : list (R -> cell)) : out :=
+  OL (map (fun t => col_summary (map t rows)) ts).
+
+Definition metas_hashed (l : ledger) (keys : list str) : out :=
+  OL [targets_hashed (postings_iter l) (pmeta_targets l keys);
+      targets_hashed (entries_iter l) (map (fun k r => f_dmeta (er_entry r) k) keys);
+      targets_hashed (typed_iter KTransaction l) (map (fun k d => f_dmeta d k) keys);
+      targets_hashed (accounts_iter l)
+        (map (fun k r => f_open_meta l (ar_account r) k) keys
+         ++ [(fun r => f_open_date l (ar_account r)); (fun r => f_close_date l (ar_account r))]);
+      targets_hashed (commodities_iter l) (map (fun k d => f_commodity_meta l (d_currency d) k) keys)].
+
+Definition orders_hashed (l : ledger) : out :=
+  OL [col_summary (order_proj (typed_iter KNote l) tcol_comment tcol_account);
+      col_summary (order_proj (typed_iter KNote l) tcol_account tcol_comment);
+      col_summary (order_proj (typed_iter KEvent l) tcol_description tcol_type);
+      col_summary (order_proj (typed_iter KDocument l) tcol_filename tcol_account);
+      col_summary (order_proj (typed_iter KBalance l) tcol_account tcol_date)].
+
+Definition run_hashed_out (l : ledger) (keys : list str) : out :=
+  OL [tables_hashed l; metas_hashed l keys; orders_hashed l].
